@@ -147,15 +147,19 @@ RECURSIVE NewtonSum(_, _, _, _)
 NewtonSum(zs, vals, ders, k) ==
   IF k = 0 THEN <<RZero>> ELSE PAdd(NewtonSum(zs, vals, ders, k - 1), PScale(DD(zs, vals, ders, 1, k), Basis(zs, k)))
 
-HermiteCase(h, S, G, sgn) ==
+(* coefficients of a^0 .. a^6 of the interpolant *)
+HermiteFull(h, S, G, sgn) ==
   LET h32 == RMul(Rat(3, 2), h)   h2 == RMul(RInt(2), h)
       y1 == RNeg(RMul(RDiv(RAdd(ROne, S), RInt(2)), h))
       y3 == RSub(y1, RMul(RDiv(S, RInt(4)), h))
       zs == <<RZero, RZero, h, h, h32, h32, h2>>
       vals == <<RZero, RZero, y1, y1, y3, y3, y1>>
       ders == <<RInt(-1), RInt(-1), RNeg(S), RNeg(S), RMul(RInt(sgn), G), RMul(RInt(sgn), G), RZero>>
-      full == NewtonSum(zs, vals, ders, 7)                       \* coefficients of a^0 .. a^6
-      coefs == [j \in 1..6 |-> full[j + 1]]
+  IN TLCEval(NewtonSum(zs, vals, ders, 7))
+(* full is BOUND by a set comprehension below (a concrete value): TLC re-evaluates LET definitions on every use *)
+HermiteRec(h, full) ==
+  LET h2 == RMul(RInt(2), h)
+      coefs == TLCEval([j \in 1..6 |-> full[j + 1]])
       \* the zoom phase: parabola through (h, phi(h)) with slope phi'(h) and (2h, phi(2h))
       B == RDiv(RSub(RSub(Phi(coefs, h2), Phi(coefs, h)), RMul(Slope(coefs, h), h)), RMul(h, h))
       at == RSub(h, RDiv(Slope(coefs, h), RMul(RInt(2), B)))
@@ -170,7 +174,8 @@ HermiteCase(h, S, G, sgn) ==
       starts |-> << [x |-> <<0>>, box |-> [lo |-> <<-1>>, hi |-> <<1>>], half |-> [has |-> FALSE, k |-> 1, t |-> RZero, side |-> 1]] >>]
 Gs(S) == {RMul(C2, RSub(ROne, Delta)), RMul(C2, RAdd(ROne, Delta)),
           RMul(RMul(C2, S), RSub(ROne, Delta)), RMul(RMul(C2, S), RAdd(ROne, Delta))}
-HermiteCases == {HermiteCase(h, S, G, sgn) : h \in {Rat(1, 2), ROne}, S \in {RInt(2), RInt(3)}, G \in Gs(RInt(2)) \cup Gs(RInt(3)), sgn \in {-1, 1}}
+HermiteCases == UNION {{HermiteRec(h, full) : full \in {HermiteFull(h, S, G, sgn)}} :
+                         h \in {Rat(1, 2), ROne}, S \in {RInt(2), RInt(3)}, G \in Gs(RInt(2)) \cup Gs(RInt(3)), sgn \in {-1, 1}}
 
 NonConvexCase(sq, q, u, a1) ==
   LET coefs == <<RInt(-1), RInt(0 - sq), RInt(q), u>> IN
